@@ -39,10 +39,12 @@ func init() {
 			"(D2) the recipient filter returns sender key and ciphertext decoded from one GroupDeviceChainKeyAdded taken from the metadata payload, only on the accepting side of (event type == GroupDeviceChainKeyAdded) and of (local key Equals decoded DestMemberPk). " +
 			"(D3) every module call of RegisterChainKey takes sender and ciphertext from results #0/#1 of one recipient-filter call (directly or through a map filled only with such results), every use of those results lies on the nil-error side of the filter call, and the filter is given the own MEMBER public key. " +
 			"(D4) announce: the metadata-event handler behind ActivateGroupContext calls SendSecret on every success path of the GroupMemberDeviceAdded branch with the MemberPk decoded from the event; activation subscribes before it starts the catch-up, sends to every member listed and registers from the listed events; SendSecret seals for exactly the member it addresses (GetShareableChainKey target = DestMemberPk = its parameter), publishes the sealed bytes under the own device key and has no success return that skips publishing. " +
-			"Not decided: NaCl box secrecy/integrity and Ed25519->X25519 conversion correctness (trusted); that the sealed DeviceChainKey is the current one (C09/C10 cover the store discipline); replication and scheduling (that every device really holds every key at quiescence for all join orders and delivery plans); release of parked messages after registration (C08).",
+			"(D5) the set that SendSecret's 'already sent to this member' refusal reads is written only on the equal side of a comparison between the index's own DEVICE key and the DevicePk of the GroupDeviceChainKeyAdded event being indexed, keyed by that event's DestMemberPk, and is otherwise only initialised empty (an announcement by another device must never silence this device). " +
+			"(D6) in the get-or-create function behind GetShareableChainKey (the function that returns a *DeviceChainKey and both looks up and stores under the chain-key datastore namespace) every store site is dominated by a lookup made under the same write lock, held without release from the lookup to the store: the key that gets sealed is either the stored one or one registered in the critical section that found it missing. " +
+			"Not decided: NaCl box secrecy/integrity and Ed25519->X25519 conversion correctness (trusted); that the sealed DeviceChainKey is the current one beyond D6 (C09/C10 cover the store discipline); replication and scheduling (that every device really holds every key at quiescence for all join orders and delivery plans); release of parked messages after registration (C08).",
 		Trusted:     []string{"golang.org/x/tools go/packages+go/ssa (v0.29.0)", "golang.org/x/crypto/nacl/box semantics", "libp2p crypto key types", "go/types"},
 		Assumptions: []string{"dependencies behave as documented; only module code is analysed", "interface calls to SecretStore/OwnMemberDevice resolve to the module implementations"},
-		Floors:      map[string]int{"D1": 16, "D2": 5, "D3": 5, "D4": 10},
+		Floors:      map[string]int{"D1": 16, "D2": 5, "D3": 5, "D4": 10, "D5": 3, "D6": 1},
 		Run:         runC05,
 	})
 }
@@ -356,6 +358,8 @@ func (t *c05Tracer) compute(v ssa.Value, ctx *c05Frame) []c05Origin {
 			if x.Index == 0 {
 				return t.container(t.origins(tup.X, ctx), "[v]")
 			}
+			// presence bit: depends on which keys were ever stored
+			return c05Suffix(t.origins(tup.X, ctx), "[?]")
 		case *ssa.UnOp:
 			if x.Index == 0 && tup.Op == token.ARROW {
 				return c05Suffix(t.origins(tup.X, ctx), "<-")
@@ -981,6 +985,8 @@ func runC05(c *Ctx) {
 	filters := c05D2(c, tr)
 	c05D3(c, tr, filters, openEntry)
 	c05D4(c, tr, filters)
+	c05D5(c)
+	c05D6(c, sealEntry)
 }
 
 // ---------------------------------------------------------------------------
@@ -2034,5 +2040,399 @@ func c05D4SendSecret(c *Ctx, tr *c05Tracer, sendSecret *ssa.Function) {
 		c.check(len(miss) == 0, "D4", sn+"+always-publishes", sendSecret.Pos(),
 			"every success return of SendSecret follows the publication of the announcement",
 			"SendSecret can return success without publishing an announcement (the caller believes the member was served): return at "+describeReturns(c, miss))
+	}
+}
+
+// ---------------------------------------------------------------------------
+// D5: the "already sent" set is fed only by this device's own announcements
+
+const (
+	c05PkgErrcode   = modulePath + "/pkg/errcode"
+	c05NsChainKey   = "chainKeyForDeviceOnGroup"
+	c05ErrAlreadyTo = "ErrCode_ErrGroupSecretAlreadySentToMember"
+)
+
+type c05SetField struct {
+	owner *types.Named
+	field string
+}
+
+// c05PresenceFields: the struct fields (maps) whose key presence decides bool value v, looking
+// one module callee deep.
+func c05PresenceFields(w *World, v ssa.Value) []c05SetField {
+	for {
+		if u, ok := v.(*ssa.UnOp); ok && u.Op == token.NOT {
+			v = u.X
+			continue
+		}
+		break
+	}
+	tr := newC05Tracer(w, nil)
+	var os []c05Origin
+	var call *ssa.Call
+	idx := 0
+	switch x := v.(type) {
+	case *ssa.Call:
+		call = x
+	case *ssa.Extract:
+		if cl, ok := x.Tuple.(*ssa.Call); ok {
+			call, idx = cl, x.Index
+		}
+	}
+	if cal := (*ssa.Function)(nil); call != nil {
+		cal = c05CalleeOf(call)
+		if cal != nil && cal.Blocks != nil && inModule(cal) {
+			for _, r := range returnsOf(cal) {
+				if rs := retResults(r); idx < len(rs) {
+					os = append(os, tr.origins(rs[idx], nil)...)
+				}
+			}
+		}
+	}
+	if os == nil {
+		os = tr.origins(v, nil)
+	}
+	var out []c05SetField
+	for _, o := range os {
+		if o.Kind != "param" || !strings.HasSuffix(o.Path, "[?]") || o.Param >= len(o.Fn.Params) {
+			continue
+		}
+		f := strings.TrimSuffix(strings.TrimPrefix(o.Path, "."), "[?]")
+		if f == "" || strings.ContainsAny(f, ".[<") {
+			continue
+		}
+		n := c05Named(o.Fn.Params[o.Param].Type())
+		if n == nil {
+			continue
+		}
+		dup := false
+		for _, e := range out {
+			if e.owner.Obj() == n.Obj() && e.field == f {
+				dup = true
+			}
+		}
+		if !dup {
+			out = append(out, c05SetField{n, f})
+		}
+	}
+	return out
+}
+
+func c05D5(c *Ctx) {
+	w := c.W
+	sendSecret := w.lookupMethod(pkgRoot, "MetadataStore", "SendSecret")
+	ep := w.typesPkg(c05PkgErrcode)
+	if sendSecret == nil || sendSecret.Blocks == nil || ep == nil {
+		c.undecided("D5", "anchors", token.NoPos, "MetadataStore.SendSecret / package errcode not found")
+		return
+	}
+	cst, _ := ep.Scope().Lookup(c05ErrAlreadyTo).(*types.Const)
+	if cst == nil {
+		c.undecided("D5", c05ErrAlreadyTo, token.NoPos, "error constant not found")
+		return
+	}
+	want, _ := constant.Int64Val(cst.Val())
+	sn := fnName(sendSecret)
+	// the refusal returns and the tests that lead to them
+	var fields []c05SetField
+	nRefusals := 0
+	ei := errResultIndex(sendSecret.Signature)
+	for _, r := range returnsOf(sendSecret) {
+		rs := retResults(r)
+		if ei < 0 || ei >= len(rs) {
+			continue
+		}
+		k, ok := stripConv(rs[ei]).(*ssa.Const)
+		if !ok || k.Value == nil || !isNamed(k.Type(), c05PkgErrcode, "ErrCode") {
+			continue
+		}
+		if v, ok := constInt(k); !ok || v != want {
+			continue
+		}
+		nRefusals++
+		for _, b := range sendSecret.Blocks {
+			if len(b.Instrs) == 0 {
+				continue
+			}
+			ifi, ok := b.Instrs[len(b.Instrs)-1].(*ssa.If)
+			if !ok {
+				continue
+			}
+			leads := false
+			for _, su := range b.Succs {
+				if edgeDominates(edge{b, su}, r.Block()) {
+					leads = true
+				}
+			}
+			if leads {
+				fields = append(fields, c05PresenceFields(w, ifi.Cond)...)
+			}
+		}
+	}
+	if nRefusals == 0 {
+		c.note("SendSecret has no 'already sent to member' refusal: D5 has no subject")
+		c.ok("D5", sn+"+already-sent-set", sendSecret.Pos(), "SendSecret never refuses with 'already sent': nothing can silence it")
+		return
+	}
+	if len(fields) == 0 {
+		c.undecided("D5", sn+"+already-sent-set", sendSecret.Pos(), "the 'already sent to member' refusal of SendSecret does not depend on the key presence of a map field (shape not modelled)")
+		return
+	}
+	var fnames []string
+	for _, f := range fields {
+		fnames = append(fnames, f.owner.Obj().Name()+"."+f.field)
+	}
+	c.ok("D5", sn+"+already-sent-set", sendSecret.Pos(), "the 'already sent' refusal reads the key set %s", strings.Join(fnames, ", "))
+
+	devVia := func(o c05Origin) (dev, mem bool) {
+		for _, v := range o.Via {
+			for _, in := range []string{"OwnMemberDevice", "MemberDevice"} {
+				if v == "("+pkgSecret+"."+in+").Device" {
+					dev = true
+				}
+				if v == "("+pkgSecret+"."+in+").Member" {
+					mem = true
+				}
+			}
+		}
+		return
+	}
+	tr := newC05Tracer(w, nil)
+	for _, sf := range fields {
+		setName := sf.owner.Obj().Name() + "." + sf.field
+		isOwnerParam := func(o c05Origin) bool {
+			if o.Kind != "param" || o.Param >= len(o.Fn.Params) {
+				return false
+			}
+			n := c05Named(o.Fn.Params[o.Param].Type())
+			return n != nil && n.Obj() == sf.owner.Obj()
+		}
+		nWrites := 0
+		for _, fn := range w.ModFuncs {
+			if fnPkg(fn) == nil || fnPkg(fn).Path() != sf.owner.Obj().Pkg().Path() {
+				continue
+			}
+			for _, b := range fn.Blocks {
+				for _, in := range b.Instrs {
+					switch x := in.(type) {
+					case *ssa.Store:
+						fa, ok := x.Addr.(*ssa.FieldAddr)
+						if !ok || c05FieldName(fa.X.Type(), fa.Field) != sf.field {
+							continue
+						}
+						if n := c05Named(fa.X.Type()); n == nil || n.Obj() != sf.owner.Obj() {
+							continue
+						}
+						c.analysed(fn)
+						empty := true
+						vo := tr.origins(x.Val, nil)
+						for _, o := range vo {
+							if o.Kind == "const" && isNilConst(o.Val) {
+								continue
+							}
+							if o.Kind != "make" {
+								empty = false
+								continue
+							}
+							if refs := o.Val.Referrers(); refs != nil {
+								for _, r := range *refs {
+									if _, isMU := r.(*ssa.MapUpdate); isMU {
+										empty = false
+									}
+								}
+							}
+						}
+						c.check(empty, "D5", fnName(fn)+"+init("+setName+")", x.Pos(),
+							"the set is (re)initialised empty",
+							"the already-sent set "+setName+" is replaced wholesale by a map that is not freshly made and empty: "+c05Describe(c05NonConst(vo)))
+					case *ssa.MapUpdate:
+						mo := tr.origins(x.Map, nil)
+						if !c05Any(mo, func(o c05Origin) bool { return isOwnerParam(o) && o.Path == "."+sf.field }) {
+							continue
+						}
+						nWrites++
+						c.analysed(fn)
+						cons := fnName(fn) + "+write(" + setName + ")"
+						// comparisons of the own device key with the event's sender device key
+						type cmp struct {
+							v   ssa.Value
+							ops []ssa.Value
+							neq bool
+						}
+						var cmps []cmp
+						for _, b2 := range fn.Blocks {
+							for _, in2 := range b2.Instrs {
+								switch y := in2.(type) {
+								case *ssa.Call:
+									if !isBoolType(y.Type()) {
+										continue
+									}
+									ops := y.Common().Args
+									if y.Common().IsInvoke() {
+										ops = append([]ssa.Value{y.Common().Value}, ops...)
+									}
+									cmps = append(cmps, cmp{y, ops, false})
+								case *ssa.BinOp:
+									if y.Op == token.EQL || y.Op == token.NEQ {
+										cmps = append(cmps, cmp{y, []ssa.Value{y.X, y.Y}, y.Op == token.NEQ})
+									}
+								}
+							}
+						}
+						guarded := false
+						nCmp := 0
+						for _, cm := range cmps {
+							own, sender := false, false
+							for _, op := range cm.ops {
+								oo := c05NonConst(tr.contentOrigins(op, nil, cm.v.(ssa.Instruction)))
+								if c05All(oo, func(o c05Origin) bool {
+									dev, mem := devVia(o)
+									f := strings.TrimPrefix(o.Path, ".")
+									return isOwnerParam(o) && dev && !mem && f != "" && !strings.ContainsAny(f, ".[<")
+								}) {
+									own = true
+								}
+								if c05All(oo, func(o c05Origin) bool {
+									return o.Kind == "param" && o.Fn == fn && !isOwnerParam(o) && o.Path == ".DevicePk"
+								}) {
+									sender = true
+								}
+							}
+							if !own || !sender {
+								continue
+							}
+							nCmp++
+							ve := edgesOfVerdict(cm.v)
+							eq := ve.Accept
+							if cm.neq {
+								eq = ve.Reject
+							}
+							for _, e := range eq {
+								if edgeDominates(e, x.Block()) {
+									guarded = true
+								}
+							}
+						}
+						why := "there is no comparison of the index's own device key with the DevicePk of the indexed event"
+						if nCmp > 0 {
+							why = "the write is reachable without that comparison having found them equal (e.g. a disjunction with another test)"
+						}
+						c.check(guarded, "D5", cons+".guard", x.Pos(),
+							"the set is written only on the equal side of (own device key == sender DevicePk of the event)",
+							"a member is marked 'already served' ("+setName+") although the indexed announcement was not sent by THIS device: "+why+"; SendSecret would then refuse that member forever and this device's chain key is never published to it")
+						ko := c05NonConst(tr.origins(x.Key, nil))
+						c.check(c05All(ko, func(o c05Origin) bool {
+							return o.Kind == "param" && o.Fn == fn && !isOwnerParam(o) && o.Path == ".DestMemberPk"
+						}), "D5", cons+".key", x.Pos(),
+							"the member marked is the DestMemberPk of the indexed announcement",
+							"the member marked 'already served' must be the DestMemberPk of the indexed announcement but derives from: "+c05Describe(ko))
+					}
+				}
+			}
+		}
+		c.count("already_sent_set_writes", nWrites)
+	}
+}
+
+// ---------------------------------------------------------------------------
+// D6: get-or-create of the own chain key is one write-locked critical section
+
+func c05D6(c *Ctx, sealEntry *ssa.Function) {
+	w := c.W
+	ei := w.effects()
+	li := w.locks()
+	isCK := func(t types.Type) bool {
+		_, isPtr := t.(*types.Pointer)
+		return isPtr && isNamed(t, pkgTypes, "DeviceChainKey")
+	}
+	getP, putP := eff("Get|Has", c05NsChainKey), eff("Put", c05NsChainKey)
+	reach := w.reachableFuncs([]*ssa.Function{sealEntry}, 3)
+	var fns []*ssa.Function
+	for fn := range reach {
+		fns = append(fns, fn)
+	}
+	sort.Slice(fns, func(i, j int) bool { return fns[i].String() < fns[j].String() })
+	n := 0
+	for _, fn := range fns {
+		res := fn.Signature.Results()
+		if res.Len() == 0 || !isCK(res.At(0).Type()) {
+			continue
+		}
+		var lookups, puts []effectSite
+		for _, s := range ei.sitesIn(fn) {
+			if _, isCall := s.Instr.(*ssa.Call); !isCall {
+				continue
+			}
+			if s.has(putP) {
+				puts = append(puts, s)
+			} else if s.has(getP) && s.pureLookup() {
+				lookups = append(lookups, s)
+			}
+		}
+		if len(puts) == 0 || len(lookups) == 0 {
+			continue
+		}
+		c.analysed(fn)
+		for _, p := range puts {
+			n++
+			pi := p.Instr.(ssa.Instruction)
+			cons := fnName(fn) + "+get-or-create"
+			if p.Callee != nil {
+				cons += "->" + fnName(p.Callee)
+			}
+			heldP := li.heldAt(pi)
+			var wclasses []string
+			for _, k := range heldP.list() {
+				if strings.HasSuffix(k, "/W") {
+					wclasses = append(wclasses, strings.TrimSuffix(k, "/W"))
+				}
+			}
+			if len(wclasses) == 0 {
+				c.fail("D6", cons, posOf(pi), "the own chain key is created and stored without holding a write lock: two callers can each generate a key, one of them is sealed and published but never stored")
+				continue
+			}
+			okAny := false
+			why := "no lookup of the stored chain key dominates the store"
+			for _, l := range lookups {
+				lin := l.Instr.(ssa.Instruction)
+				if !instrDominates(lin, pi) {
+					continue
+				}
+				heldL := li.heldAt(lin)
+				for _, cl := range wclasses {
+					if !heldL.holds(cl, 'W') {
+						why = fmt.Sprintf("the lookup at %s that finds the key missing does not hold the write lock %s under which the key is stored (held there: %v)", c.pos(posOf(lin)), cl, heldL.list())
+						continue
+					}
+					released := ""
+					for _, b := range fn.Blocks {
+						for _, in := range b.Instrs {
+							ci, ok := in.(ssa.CallInstruction)
+							if !ok {
+								continue
+							}
+							op, ok := lockOpOf(ci)
+							if !ok || op.Acquire || op.Deferred || op.Class != cl {
+								continue
+							}
+							if instrReaches(lin, in) && instrReaches(in, pi) {
+								released = c.pos(posOf(in))
+							}
+						}
+					}
+					if released != "" {
+						why = fmt.Sprintf("the lock %s is released at %s between the lookup and the store", cl, released)
+						continue
+					}
+					okAny = true
+				}
+			}
+			c.check(okAny, "D6", cons, posOf(pi),
+				"lookup, generation and store of the own chain key happen in one uninterrupted write-locked section",
+				"the own chain key is stored outside the critical section of the lookup that found it missing: "+why+"; the loser of a race returns a freshly generated key that is never stored, and GetShareableChainKey seals and publishes it")
+		}
+	}
+	if n == 0 {
+		c.undecided("D6", fnName(sealEntry)+"+get-or-create", sealEntry.Pos(), "no function reachable from %s returns a *DeviceChainKey and both looks up and stores under namespace %s", fnName(sealEntry), c05NsChainKey)
 	}
 }
